@@ -88,4 +88,13 @@ PlainSteps(ss) ==
                        /\ ss[i].next = "nil"
                        /\ PlainActs(ss[i].acts) /\ PlainBranches(ss[i].branches)
 PlainModel(m) == m.setup = <<>> /\ PlainSteps(m.steps)
+
+(* ... the same with explicit `next` jumps allowed (loops): the local ordering rules of C04 *)
+(* hold for every pass                                                                      *)
+RECURSIVE PlainStepsL(_), PlainBranchesL(_)
+PlainBranchesL(bs) == \A i \in DOMAIN bs : PlainStepsL(bs[i].steps)
+PlainStepsL(ss) ==
+  \A i \in DOMAIN ss : /\ ss[i].catches = <<>> /\ ss[i].timeouts = <<>> /\ ss[i].setup = <<>>
+                       /\ PlainActs(ss[i].acts) /\ PlainBranchesL(ss[i].branches)
+PlainModelL(m) == m.setup = <<>> /\ PlainStepsL(m.steps)
 =============================================================================
